@@ -176,7 +176,10 @@ def parse_path(path):
     segs = []
     for seg in path.split(' :: '):
         seg = seg.strip()
-        kw, _, rest = seg.partition(' ')
+        if seg.startswith('impl') and not seg[4:5].isalnum():
+            kw, rest = 'impl', seg[4:]
+        else:
+            kw, _, rest = seg.partition(' ')
         if kw not in ITEM_KW:
             raise Lost('bad item path segment `%s`' % seg)
         segs.append((kw, rest.strip()))
@@ -229,6 +232,7 @@ class Lift:
         self.derive = None     # None = KEEP_DERIVES, else the subset to keep
         self.no_body = False
         self.no_canary = False
+        self.pub_fields = False  # R2b: private named fields of a lifted struct become pub (visibility only)
         self.expand = {}       # macro name -> (params, body) from its macro_rules! text (rule R4)
         self.line = 0
 
@@ -237,9 +241,13 @@ class Lift:
         if self.alias:
             return self.alias
         segs = self.path.split(' :: ')
-        last = segs[-1].split(' ', 1)[1]
-        if len(segs) > 1 and segs[-2].startswith('impl '):
-            hdr = segs[-2][5:]
+        if segs[-1].startswith('impl'):
+            last = segs[-1][4:].strip()
+        else:
+            last = segs[-1].split(' ', 1)[1]
+        if len(segs) > 1 and segs[-2].startswith('impl'):
+            hdr = segs[-2][4:]
+            hdr = re.sub(r'^\s*<[^>]*>\s*', '', hdr)
             ty = hdr.split(' for ')[-1]
             ty = re.sub(r"<.*", '', ty).strip()
             return ty + '::' + last
@@ -274,13 +282,7 @@ def transform(src, lo, hi, lift, report, inserts=None, replaced=None, ret_at=Non
         if ret_at is not None and k == ret_at[0]:
             # `-> T` => `-> (r: T)`
             out.append(('-> (%s: ' % ret_at[2], t.start))
-            j = k + 1
-            while j <= ret_at[1]:
-                if toks[j].kind == 'comment':
-                    out.append((_newlines(toks[j].text), toks[j].start))
-                else:
-                    out.append((toks[j].text, toks[j].start))
-                j += 1
+            out.extend(transform(src, k + 1, ret_at[1], lift, report, inserts, replaced))
             # trailing whitespace of the type goes after the paren
             out.append((')', None))
             bump('RET')
@@ -584,6 +586,44 @@ def lift_item(src, lift):
         if lift.spec or lift.loops or lift.ret:
             raise Lost('%s: contracts can only be attached to functions' % what)
         replaced = _find_rewrites(src, lo, hi, lift.rewrites, report, what) if lift.rewrites else {}
+        if lift.pub_fields and it['kind'] == 'struct' and it['body_open'] is not None:
+            bo = it['body_open']
+            j = bo + 1
+            at_field_start = True
+            while j < hi:
+                tj = toks[j]
+                if not _code(toks, j):
+                    j += 1
+                    continue
+                if tj.kind == 'punct' and tj.text == '#':
+                    jn = _next_code(toks, j, hi)
+                    if toks[jn].text == '[':
+                        j = match_close(toks, jn) + 1
+                        continue
+                if tj.kind == 'punct' and tj.text in '([{<':
+                    if tj.text == '<':
+                        j += 1
+                        continue
+                    j = match_close(toks, j) + 1
+                    at_field_start = False
+                    continue
+                if tj.kind == 'punct' and tj.text == ',':
+                    at_field_start = True
+                    j += 1
+                    continue
+                if at_field_start and tj.kind == 'ident':
+                    if tj.text == 'pub':
+                        at_field_start = False
+                    else:
+                        jn = _next_code(toks, j, hi)
+                        if toks[jn].text == ':':
+                            inserts.setdefault(j, []).append('pub ')
+                            report['R2b'] = report.get('R2b', 0) + 1
+                        at_field_start = False
+                    j += 1
+                    continue
+                at_field_start = False
+                j += 1
     segs = transform(src, lo, hi, lift, report, inserts, replaced, ret_at)
     info = dict(kind=it['kind'], orig_start_line=src.line_of(toks[it['kw']].start),
                 orig_end_line=src.line_of(toks[it['end']].start))
